@@ -243,6 +243,24 @@ CHECKS["C12"] = dict(
     note="Trusted: TLC; EncTotality.tla with QRTables / DMTables / OneD / Charset; harness/c12 (hang = 2 s of processor time or 30 s wall). Hint values "
          "of the documented types only; sizes up to 10x the symbol, margins up to 2000.",
     technique="TLA+ call/return contract of Writer.Encode; TLC model checking of the contract + TLC enumeration of the configuration space + trace validation of real calls")
+CHECKS["C09"] = dict(
+    category="model_checking",
+    text="spec/Retry.tla gives the readers' retry logic as automata with abstract inner attempts (OneDReader row scan middle-out, forward "
+         "then reversed, quarter-turn retry with orientation (270+o) mod 360; the QR decoder's plain-then-mirrored reading); MC_Retry proves "
+         "over every small scenario that a reversed success gives 180, the turn happens only with TRY_HARDER, the mirrored flag is set "
+         "exactly on a second-pass success, the first reading's error is reported and the scan terminates. spec/Pose.tla defines a pose "
+         "(transpose, integer upscale, padding, clockwise turn) as an exact pixel map; MC_Pose proves the composed transform equals the "
+         "closed-form map; Gen_Pose enumerates the complete pose grid (pad {0,1,3,10} x scale 1..6 x 4 rotations x mirror (QR) x TRY_HARDER "
+         "(1-D): 2016 cases for 11 symbologies). The driver writes seeded contents with the real writers, poses the image and reads it through "
+         "the normal locating path; Trace_Pose judges every read: the content or a NotFound / Checksum / Format error, 1-D upside down = "
+         "content with ORIENTATION 180 and sideways with TRY_HARDER = content (expectations computed by feeding the retry automaton the "
+         "OneD.tla reference readings of the written row, forward and reversed), QR mirrored flag exactly when mirrored. Pose grid exhaustive, "
+         "contents sampled.",
+    design_ref="DESIGN.md section 6 C09",
+    note="Trusted: TLC; OneD.tla reference readers; Pose.tla / Retry.tla; the harness pixel transform (itself checked by xform events). Exactly bilevel "
+         "renderings. Not judged (the property does not demand it): locating success for QR / DM at image level, which of Format / Checksum is "
+         "reported. Known findings C09-upce-default-quiet-zone and C09-upce-reversed-row-misread are open.",
+    technique="TLA+ retry automata + exact pixel-map pose spec; TLC model checking, TLC-enumerated pose grid replayed on the real writers/readers, trace validation against reference readers")
 
 NOT_YET = {
 }
